@@ -143,6 +143,21 @@ pub fn gen_session(seed: u64, run: u64, thorough: bool) -> Session {
             crashes.push((rng.range(1, est_tasks.max(1) as usize) as u64, rng.range(1, 60) as u64));
         }
     }
+    // one run in three holds tasks of one kind of point until the main loop passes another
+    let hold = if rng.chance(1, 3) {
+        let (a, b) = *rng.pick(&[
+            ("task:start", "didchange:vfs_updated"),
+            ("task:start", "apply:end"),
+            ("task:end", "task:spawned"),
+            ("task:end", "apply:end"),
+            ("vfs:read", "didchange:vfs_updated"),
+            ("query:begin", "apply:begin"),
+            ("query:end", "task:spawned"),
+        ]);
+        Some((a.to_string(), b.to_string()))
+    } else {
+        None
+    };
     Session {
         property: "C16".into(),
         seed,
@@ -157,6 +172,7 @@ pub fn gen_session(seed: u64, run: u64, thorough: bool) -> Session {
         ops,
         crashes,
         decisions: None,
+        hold,
         meta: json!({}),
     }
 }
@@ -205,6 +221,7 @@ fn reference_session(s: &Session, ops: Vec<PlannedOp>, hash_seed: u64) -> Histor
         ops,
         crashes: Vec::new(),
         decisions: None,
+        hold: None,
         meta: json!({"reference": true}),
     };
     run_session(&r, false)
